@@ -17,7 +17,7 @@ MUST_REACH = ["msg", "lib:InvalidMessageError", "lib:UnsupportedMessageError", "
 
 PAYLOADS = ["55", "0", "100", "abc", "", "nan", "inf", "-inf", "1e400", "150", "-3", " 42", "4_2", "٣", "1.5",
             "2.2", "2.2.0", "garbage", "2", "v2.1", "1.4-beta", "latest", "9" * 60, "٣.٤"]
-CLASS_TEXTS = ["", "abc", "1.0", " ", "0x1", "1e2", "٣", " 7", "1_0", "+5"]
+CLASS_TEXTS = ["", "abc", "1.0", " ", "0x1", "1e2", "٣", " 7", "1_0", "+5", "²"]
 PROBE = "0;255;3;0;9;x\n"
 
 
